@@ -15,6 +15,7 @@ import (
 	_ "github.com/lmorg/murex/builtins/pipes/streams"
 	"github.com/lmorg/murex/lang/pipes"
 	"github.com/lmorg/murex/lang/stdio"
+	"github.com/lmorg/murex/utils/verifhook"
 )
 
 func init() {
@@ -305,16 +306,41 @@ func namedReplay(args []string) int {
 
 // named-drive: free-running random concurrent operations on real registries (for the race
 // detector build, C32) - no gates, no comparison; a panic or fatal error kills the process.
+type npEvent struct {
+	Ev   string `json:"ev"`
+	Name string `json:"name"`
+	Ok   int    `json:"ok"`
+}
+
 func namedDrive(args []string) int {
 	fs := flag.NewFlagSet("named-drive", flag.ExitOnError)
 	seed := fs.Int64("seed", 1, "seed")
 	regs := fs.Int("n", 8, "registries")
 	ops := fs.Int("ops", 300, "operations per client")
+	out := fs.String("out", "", "if set: record the registries' events here (ndjson, one trace per registry)")
 	fs.Parse(args)
+	var mu sync.Mutex
+	logs := map[any][]npEvent{}
+	if *out != "" {
+		verifhook.Install(&verifhook.Hooks{Emit: func(obj any, ev string, s string, n []int64) {
+			if !strings.HasPrefix(ev, "np.") {
+				return
+			}
+			e := npEvent{Ev: ev, Name: s}
+			if len(n) > 0 {
+				e.Ok = int(n[0])
+			}
+			mu.Lock()
+			logs[obj] = append(logs[obj], e)
+			mu.Unlock()
+		}})
+	}
 	var wg sync.WaitGroup
+	var all []*pipes.Named
 	for r := 0; r < *regs; r++ {
 		nm := pipes.NewNamed()
 		n := &nm
+		all = append(all, n)
 		for c := 0; c < 4; c++ {
 			wg.Add(1)
 			go func(r, c int) {
@@ -324,7 +350,7 @@ func namedDrive(args []string) int {
 				for i := 0; i < *ops; i++ {
 					name := names[rng.Intn(len(names))]
 					switch rng.Intn(6) {
-					case 0:
+					case 0, 5:
 						n.CreatePipe(name, "std", "")
 					case 1:
 						n.Close(name)
@@ -336,7 +362,8 @@ func namedDrive(args []string) int {
 						}
 					case 4:
 						n.Dump()
-					case 5:
+					}
+					if rng.Intn(16) == 0 {
 						time.Sleep(time.Duration(rng.Intn(200)) * time.Microsecond)
 					}
 				}
@@ -345,6 +372,22 @@ func namedDrive(args []string) int {
 	}
 	wg.Wait()
 	time.Sleep(2500 * time.Millisecond) // let the close timers fire
+	if *out != "" {
+		w, err := newNDWriter(*out)
+		if err != nil {
+			fmt.Fprintln(os.Stderr, err)
+			return 2
+		}
+		mu.Lock()
+		for _, n := range all {
+			w.Write(npEvent{Ev: "reset"})
+			for _, e := range logs[n] {
+				w.Write(e)
+			}
+		}
+		mu.Unlock()
+		w.Close()
+	}
 	return 0
 }
 
